@@ -34,6 +34,15 @@ def instantSelect (lb off t : Int) (pts : List (Pt V)) : Option V :=
     else if p.stale then none
     else some p.v
 
+/-- the timestamp of the sample an instant selector selects (`timestamp(selector)`). -/
+def instantSelectTs (lb off t : Int) (pts : List (Pt V)) : Option Int :=
+  match latestLE (t - off) pts with
+  | none => none
+  | some p =>
+    if p.t < (t - off) - lb then none
+    else if p.stale then none
+    else some p.t
+
 /-- is the timestamp inside the range window of evaluation time `t`? -/
 def inWindow (rng off t ts : Int) : Bool := decide (t - off - rng ≤ ts) && decide (ts ≤ t - off)
 
@@ -297,15 +306,127 @@ def vectorScalarBinop (op : BinOp) (isBool swap : Bool) (vec : List (Labels × V
 
 end vals
 
+/-! ### set operators, many-to-one matching, topk / bottomk / quantile -/
+
+inductive SetOp where
+  | and | or | unless
+deriving Repr, DecidableEq, Inhabited
+
+/-- `VectorAnd` / `VectorOr` / `VectorUnless`. -/
+def setBinop (op : SetOp) (mode : MatchMode) (names : List String) (lhs rhs : List (Labels × V)) : List (Labels × V) :=
+  let sigL := lhs.map (fun x => signature mode names x.1)
+  let sigR := rhs.map (fun x => signature mode names x.1)
+  match op with
+  | .and => lhs.filter (fun x => sigR.contains (signature mode names x.1))
+  | .or => lhs ++ rhs.filter (fun x => !sigL.contains (signature mode names x.1))
+  | .unless => lhs.filter (fun x => !sigR.contains (signature mode names x.1))
+
+inductive KAgg where
+  | topk | bottomk | quantile
+deriving Repr, DecidableEq, Inhabited
+
+/-- insertion into a list sorted by `before`. -/
+def insertBy {α : Type} (before : α → α → Bool) (x : α) : List α → List α
+  | [] => [x]
+  | y :: ys => if before x y then x :: y :: ys else y :: insertBy before x ys
+
+def sortBy {α : Type} (before : α → α → Bool) (xs : List α) : List α := xs.foldr (insertBy before) []
+
+section vals
+variable [Val V]
+open Val
+
+/-- `resultMetric` for group_left / group_right: the labels of the many side (without the name for
+arithmetic and `bool`), the `include` labels taken from the one side. -/
+def resultMetricG (op : BinOp) (isBool : Bool) (include : List String) (many one : Labels) : Labels :=
+  let m := if op.isCmp then many else many.dropName
+  let m := include.foldl (fun acc ln => if one.get ln != "" then acc.set ln (one.get ln) else acc.del [ln]) m
+  if isBool then m.dropName else m
+
+/-- the loop of `VectorBinop` for many-to-one matching; `inserted` = (signature, result label set)
+pairs already produced. -/
+def binopLoopG (op : BinOp) (isBool swap : Bool) (mode : MatchMode) (names include : List String)
+    (one : List (Labels × Labels × V)) :
+    List (Labels × V) → List (Labels × Labels) → Except Err (List (Labels × V))
+  | [], _ => .ok []
+  | (mm, mv) :: rest, inserted =>
+    let sig := signature mode names mm
+    match one.find? (fun r => r.1 = sig) with
+    | none => binopLoopG op isBool swap mode names include one rest inserted
+    | some (_, om, ov) =>
+      let (l, r) := if swap then (ov, mv) else (mv, ov)
+      let (val, keep) := elemBinop op l r
+      -- for a comparison the value kept is the left operand's, also after the swap of group_right
+      if !isBool && !keep then binopLoopG op isBool swap mode names include one rest inserted
+      else
+        let val := if isBool then boolVal keep else val
+        let metric := resultMetricG op isBool include mm om
+        if inserted.contains (sig, metric) then .error .groupingDup
+        else
+          match binopLoopG op isBool swap mode names include one rest ((sig, metric) :: inserted) with
+          | .error e => .error e
+          | .ok out => .ok ((metric, val) :: out)
+
+/-- `VectorBinop` with group_left (`left = true`: the left side is the many side) or group_right. -/
+def vectorBinopG (op : BinOp) (isBool : Bool) (mode : MatchMode) (names include : List String) (left : Bool)
+    (lhs rhs : List (Labels × V)) : Except Err (List (Labels × V)) :=
+  if lhs.isEmpty || rhs.isEmpty then .ok []
+  else
+    let (many, one) := if left then (lhs, rhs) else (rhs, lhs)
+    let os := one.map (fun r => (signature mode names r.1, r.1, r.2))
+    if hasDup (os.map (·.1)) then .error .dupMatch
+    else binopLoopG op isBool (!left) mode names include os many []
+
+/-- `quantile(φ, …)` over the members of a group (the engine's `quantile` helper). -/
+def quantileOf (phi : V) (vs : List V) : V :=
+  if lt phi (ofInt 0) then div (ofInt (-1)) (ofInt 0)
+  else if lt (ofInt 1) phi then div (ofInt 1) (ofInt 0)
+  else
+    let sorted := sortBy (fun a b => lt a b) vs
+    let n : Int := sorted.length
+    let rank := mul phi (ofInt (n - 1))
+    let fl := toIntFloor rank
+    let lower := if fl < 0 then 0 else fl
+    let upper := if lower + 1 < n - 1 then lower + 1 else n - 1
+    let weight := sub rank (ofInt fl)
+    match sorted[lower.toNat]?, sorted[upper.toNat]? with
+    | some a, some b => add (mul a (sub (ofInt 1) weight)) (mul b weight)
+    | _, _ => div (ofInt 0) (ofInt 0)
+
+/-- topk / bottomk / quantile on one input vector. `k` is the parameter of topk/bottomk already
+converted to an integer. topk/bottomk return the chosen ELEMENTS with their own label sets. -/
+def aggregateK (op : KAgg) (param : V) (without : Bool) (names : List String) (xs : List (Labels × V)) : List (Labels × V) :=
+  let groups := xs.foldl (fun (acc : List (Labels × List (Labels × V))) x =>
+      groupInsert (groupLabels without names x.1) x acc) []
+  match op with
+  | .quantile => groups.map (fun g => (g.1, quantileOf param (g.2.map (·.2))))
+  | .topk =>
+    let k := toIntFloor param
+    if k < 1 then [] else groups.flatMap (fun g => (sortBy (fun a b => lt b.2 a.2) g.2).take k.toNat)
+  | .bottomk =>
+    let k := toIntFloor param
+    if k < 1 then [] else groups.flatMap (fun g => (sortBy (fun a b => lt a.2 b.2) g.2).take k.toNat)
+
+end vals
+
 /-! ### expressions and evaluation -/
 
 inductive Expr (V : Type) where
   | num (v : V)
-  | sel (ms : List Matcher) (off : Int)
-  | rfn (fn : RFn) (rng : Int) (ms : List Matcher) (off : Int)
+  | sel (ms : List Matcher) (off : Int) (at : Option Int)
+  | rfn (fn : RFn) (rng : Int) (ms : List Matcher) (off : Int) (at : Option Int)
   | agg (op : AggOp) (without : Bool) (names : List String) (e : Expr V)
   | bin (op : BinOp) (isBool : Bool) (mode : MatchMode) (names : List String) (l r : Expr V)
+  | setop (op : SetOp) (mode : MatchMode) (names : List String) (l r : Expr V)
+  | binG (op : BinOp) (isBool : Bool) (mode : MatchMode) (names include : List String) (left : Bool) (l r : Expr V)
+  | aggK (op : KAgg) (param : V) (without : Bool) (names : List String) (e : Expr V)
+  | tsSel (ms : List Matcher) (off : Int) (at : Option Int)     -- timestamp(<selector>)
+  | tsOf (e : Expr V)                                           -- timestamp(<other instant vector>)
+  | subq (fn : RFn) (rng stp off : Int) (e : Expr V)            -- fn((e)[rng:stp] offset off)
 deriving Repr, Inhabited
+
+/-- the `@` modifier pins the evaluation time of a selector. -/
+def tAt (at : Option Int) (t : Int) : Int := at.getD t
 
 inductive Value (V : Type) where
   | scalar (v : V)
@@ -337,6 +458,10 @@ def aggStep (op : AggOp) (without : Bool) (names : List String) : Value V → Ex
   | .vector xs => checkDup (aggregate op without names xs)
   | .scalar _ => .error .badType
 
+def aggKStep (op : KAgg) (param : V) (without : Bool) (names : List String) : Value V → Except Err (Value V)
+  | .vector xs => checkDup (aggregateK op param without names xs)
+  | .scalar _ => .error .badType
+
 def binStep (op : BinOp) (isBool : Bool) (mode : MatchMode) (names : List String) :
     Value V × Value V → Except Err (Value V)
   | (.vector l, .vector r) =>
@@ -347,14 +472,61 @@ def binStep (op : BinOp) (isBool : Bool) (mode : MatchMode) (names : List String
   | (.scalar s, .vector r) => checkDup (vectorScalarBinop op isBool true r s)
   | (.scalar _, .scalar _) => .error .badType
 
+def setStep (op : SetOp) (mode : MatchMode) (names : List String) : Value V × Value V → Except Err (Value V)
+  | (.vector l, .vector r) => checkDup (setBinop op mode names l r)
+  | _ => .error .badType
+
+def binGStep (op : BinOp) (isBool : Bool) (mode : MatchMode) (names include : List String) (left : Bool) :
+    Value V × Value V → Except Err (Value V)
+  | (.vector l, .vector r) =>
+    match vectorBinopG op isBool mode names include left l r with
+    | .error e => .error e
+    | .ok out => checkDup out
+  | _ => .error .badType
+
+/-- `timestamp(<selector>)` at one step: the timestamps of the selected samples, in seconds. -/
+def tsSelStep (db : List (Series V)) (lb : Int) (ms : List Matcher) (off t : Int) : Except Err (Value V) :=
+  checkDup (db.filterMap (fun s =>
+    if matchAll ms s.labels then
+      (instantSelectTs lb off t s.pts).map (fun ts => (s.labels.dropName, Val.div (Val.ofInt ts) (Val.ofInt 1000)))
+    else none))
+
+/-- `timestamp(<expression>)` at one step: the evaluation time, in seconds, for every element. -/
+def tsOfStep : Int × Value V → Except Err (Value V)
+  | (t, .vector xs) => checkDup (xs.map (fun x => (x.1.dropName, Val.div (Val.ofInt t) (Val.ofInt 1000))))
+  | (_, .scalar _) => .error .badType
+
+/-- the evaluation timestamps of a subquery window: the multiples of `stp` in `[lo, hi]`. -/
+def alignedSteps (lo hi stp : Int) : List Int :=
+  if stp ≤ 0 then []
+  else
+    let first := stp * (lo / stp)
+    let first := if first < lo then first + stp else first
+    if hi < first then [] else stepsOf first hi stp
+
+def ptInsert (k : Labels) (p : Pt V) : List (Labels × List (Pt V)) → List (Labels × List (Pt V))
+  | [] => [(k, [p])]
+  | (k', ps) :: rest => if k' = k then (k', ps ++ [p]) :: rest else (k', ps) :: ptInsert k p rest
+
+/-- the result of the inner expression of a subquery as one sample list per label set. -/
+def seriesOf (ss : List Int) (vs : List (Value V)) : List (Labels × List (Pt V)) :=
+  (ss.zip vs).foldl (fun acc sv =>
+    match sv.2 with
+    | .vector xs => xs.foldl (fun a x => ptInsert x.1 ⟨sv.1, x.2, false⟩ a) acc
+    | .scalar _ => acc) []
+
+/-- a range function over a subquery at one outer step. -/
+def subqApply (fn : RFn) (rng off t : Int) (inner : List (Labels × List (Pt V))) : Except Err (Value V) :=
+  checkDup (inner.filterMap (fun s => (applyRFn fn rng off t s.2).map (fun v => (rfnLabels fn s.1, v))))
+
 /-- evaluation over a list of steps, node by node as the engine does (children over the whole
 range first, then the node per step): one value per step, or the first error met. -/
 def evalSteps (db : List (Series V)) (lb : Int) (steps : List Int) : Expr V → Except Err (List (Value V))
   | .num v => .ok (steps.map (fun _ => .scalar v))
-  | .sel ms off => .ok (steps.map (fun t => .vector (selStep db lb ms off t)))
-  | .rfn fn rng ms off =>
-    if hasDup (rfnOutLabels db fn rng ms off steps) then .error .dupLabelset
-    else .ok (steps.map (fun t => .vector (rfnStep db fn rng ms off t)))
+  | .sel ms off at => .ok (steps.map (fun t => .vector (selStep db lb ms off (tAt at t))))
+  | .rfn fn rng ms off at =>
+    if hasDup (rfnOutLabels db fn rng ms off (steps.map (tAt at))) then .error .dupLabelset
+    else .ok (steps.map (fun t => .vector (rfnStep db fn rng ms off (tAt at t))))
   | .agg op without names e =>
     match evalSteps db lb steps e with
     | .error err => .error err
@@ -366,6 +538,34 @@ def evalSteps (db : List (Series V)) (lb : Int) (steps : List Int) : Expr V → 
       match evalSteps db lb steps r with
       | .error err => .error err
       | .ok ys => mapE (binStep op isBool mode names) (xs.zip ys)
+  | .setop op mode names l r =>
+    match evalSteps db lb steps l with
+    | .error err => .error err
+    | .ok xs =>
+      match evalSteps db lb steps r with
+      | .error err => .error err
+      | .ok ys => mapE (setStep op mode names) (xs.zip ys)
+  | .binG op isBool mode names include left l r =>
+    match evalSteps db lb steps l with
+    | .error err => .error err
+    | .ok xs =>
+      match evalSteps db lb steps r with
+      | .error err => .error err
+      | .ok ys => mapE (binGStep op isBool mode names include left) (xs.zip ys)
+  | .aggK op param without names e =>
+    match evalSteps db lb steps e with
+    | .error err => .error err
+    | .ok xs => mapE (aggKStep op param without names) xs
+  | .tsSel ms off at => mapE (fun t => tsSelStep db lb ms off (tAt at t)) steps
+  | .tsOf e =>
+    match evalSteps db lb steps e with
+    | .error err => .error err
+    | .ok xs => mapE tsOfStep (steps.zip xs)
+  | .subq fn rng stp off e =>
+    mapE (fun t =>
+      match evalSteps db lb (alignedSteps (t - off - rng) (t - off) stp) e with
+      | .error err => .error err
+      | .ok vs => subqApply fn rng off t (seriesOf (alignedSteps (t - off - rng) (t - off) stp) vs)) steps
 
 /-- an instant query. -/
 def evalInstant (db : List (Series V)) (lb : Int) (t : Int) (e : Expr V) : Except Err (Value V) :=
